@@ -308,8 +308,19 @@ bool kirsch_bounded_kfifo_queue<T, Policies...>::committed(const marked_idx& tai
     return true;
   }
 
+  // We need a consistent snapshot of tail and head: with a tail that is older than the head, a queue
+  // whose head has already moved past our segment looks like a wrapped around queue in which our
+  // segment is still valid - and the inserted item would be lost.
   marked_idx tail_current = _tail.load(std::memory_order_seq_cst);
-  marked_idx head_current = _head.load(std::memory_order_seq_cst);
+  marked_idx head_current;
+  for (;;) {
+    head_current = _head.load(std::memory_order_seq_cst);
+    marked_idx tail_recheck = _tail.load(std::memory_order_seq_cst);
+    if (tail_recheck == tail_current) {
+      break;
+    }
+    tail_current = tail_recheck;
+  }
   if (in_valid_region(tail_old.get(), tail_current.get(), head_current.get())) {
     return true;
   }
